@@ -681,6 +681,24 @@ func TestVFC18Bytes(t *testing.T) {
 					fmt.Sprintf("HuffmanDecodeToString(%x) = %q,%v; RFC 7541 5.2 reference decoder: %q,%v", mut, dec, err, ref, rerr), nil)
 			}
 			res.Actions["huffman_mutations"]++
+			// the same octets as the value of a literal field through a Decoder (shares scratch buffers with the helpers above and with
+			// every other Decoder of the process), then the well-formed string again: whatever the rejected one left behind must not show
+			lit := func(h []byte) []byte {
+				return append(append([]byte{0x00, 0x01, 'k'}, vfPInt(7, 0x80, uint64(len(h)))...), h...)
+			}
+			d := NewDecoder(4096, nil)
+			fs, derr := d.DecodeFull(lit(mut))
+			if (rerr == nil) != (derr == nil) || (rerr == nil && (len(fs) != 1 || fs[0].Value != ref)) {
+				res.violate(map[string]any{"check": "C18", "kind": "huffman_decode_rules", "via": "decoder"},
+					fmt.Sprintf("Decoder on a literal with Huffman value %x: %v,%v; RFC 7541 5.2 reference decoder: %q,%v", mut, fs, derr, ref, rerr), nil)
+			}
+			d2 := NewDecoder(4096, nil)
+			fs, derr = d2.DecodeFull(lit(want))
+			if derr != nil || len(fs) != 1 || fs[0].Name != "k" || fs[0].Value != s {
+				res.violate(map[string]any{"check": "C18", "kind": "huffman_decode", "via": "decoder_after_other_strings"},
+					fmt.Sprintf("Decoder on a literal with Huffman value %x (%q), decoded right after %x on another Decoder: %v,%v", want, s, mut, fs, derr), nil)
+			}
+			res.Actions["huffman_decoder_after_mutation"]++
 		}
 		res.Actions["huffman_strings"]++
 	}
